@@ -919,7 +919,12 @@ func c15(c *Ctx) {
 		"the root and sampled sub-nodes are encoded; every encoded document is decoded, and mutated copies (type confusion, out-of-range numbers, nulls, unknown fields, wrong Type, broken positions) are decoded; " +
 		"non-trivial = tree has ≥ 8 struct values and ≥ 3 distinct struct types; distinct by (variant, recover, source)"
 	if c.Shard == 0 {
-		c15Tables(c)
+		// a change to the operator types can make the reflective table dump itself panic; that
+		// is reported through the tie (lines missing) and must not stop the search leg
+		if p := safely(func() { c15Tables(c) }); p != "" {
+			c.Hist["tables-dump-panicked"]++
+			c.Op("tables-dump-panicked", p)
+		}
 	}
 	c15PosOps(c, 40+c.N/4)
 	c15SanitizeOps(c, 40+c.N/4)
@@ -939,6 +944,9 @@ func c15(c *Ctx) {
 				srcs = append(srcs, c15Src{src: unhx(f[0]), corpus: true})
 			}
 		}
+	}
+	for _, v := range variantSnippetSources() {
+		srcs = append(srcs, c15Src{src: v, corpus: true})
 	}
 	seeds := repoSeeds()
 	nSeeds := c.N / 2
